@@ -151,6 +151,7 @@ type ctrlLog struct {
 	armed []Args      // one-shot reactive external operations (op `arm`), oldest first
 	env   *ctrlProxy  // the ungated proxy the armed operations go through
 	fired int
+	faults *ctrlFaults
 }
 
 // fire runs the oldest armed external operation waiting for the controller operation `on`
@@ -371,9 +372,41 @@ func (p *ctrlProxy) WatchKindAggregated(ctx context.Context, kind resource.Kind,
 
 const ctrlName = "CTL"
 
+// ctrlFaults: transient transform errors scripted by the scenario (`env do=failnext kind=plain|conflict`): the next
+// call of the TransformFunc fails once — with a plain error, or with a state conflict error about ANOTHER resource
+// (as a transform that writes an extra output would return). The controller must treat both as a failed
+// reconcile (restart / retry with backoff) and converge afterwards.
+type ctrlFaults struct {
+	mu      sync.Mutex
+	pending []error
+}
+
+func (f *ctrlFaults) next() error {
+	f.mu.Lock()
+	defer f.mu.Unlock()
+
+	if len(f.pending) == 0 {
+		return nil
+	}
+
+	err := f.pending[0]
+	f.pending = f.pending[1:]
+
+	return err
+}
+
+func (f *ctrlFaults) add(err error) {
+	f.mu.Lock()
+	defer f.mu.Unlock()
+
+	if len(f.pending) < 3 {
+		f.pending = append(f.pending, err)
+	}
+}
+
 func ctrlTransformSpec(in string) string { return "t:" + in }
 
-func ctrlRegister(rt *runtime.Runtime, kind string) error {
+func ctrlRegister(rt *runtime.Runtime, kind string, faults *ctrlFaults) error {
 	var qopts []qtransform.ControllerOption
 
 	if kind == "qtransform-ignore" {
@@ -389,6 +422,10 @@ func ctrlRegister(rt *runtime.Runtime, kind string) error {
 				MapMetadataFunc:   func(in *CIn) *COut { return NewCOut(in.Metadata().ID()) },
 				UnmapMetadataFunc: func(out *COut) *CIn { return NewCIn(out.Metadata().ID()) },
 				TransformFunc: func(_ context.Context, _ controller.Reader, _ *zap.Logger, in *CIn, out *COut) error {
+					if err := faults.next(); err != nil {
+						return err
+					}
+
 					out.spec = TSpec{S: ctrlTransformSpec(in.spec.S)}
 
 					return nil
@@ -402,6 +439,10 @@ func ctrlRegister(rt *runtime.Runtime, kind string) error {
 				Name:            ctrlName,
 				MapMetadataFunc: func(in *CIn) *COut { return NewCOut(in.Metadata().ID()) },
 				TransformFunc: func(_ context.Context, _ controller.Reader, _ *zap.Logger, in *CIn, out *COut) error {
+					if err := faults.next(); err != nil {
+						return err
+					}
+
 					out.spec = TSpec{S: ctrlTransformSpec(in.spec.S)}
 
 					return nil
@@ -454,6 +495,7 @@ func (e *ctrlEng) Gen(r *Rand, thorough bool, idx int) Case {
 	}
 
 	isCleanup := kind == "cleanup" || kind == "cleanup-combine"
+	mapsOutputs := kind == "transform" || kind == "qtransform" || kind == "qtransform-ignore"
 	outTypes := []string{ctrlOutType}
 
 	if kind == "cleanup-combine" {
@@ -520,6 +562,8 @@ func (e *ctrlEng) Gen(r *Rand, thorough bool, idx int) Case {
 			c.Ops = append(c.Ops, "env do=destroy id="+id)
 		case x < 76:
 			c.Ops = append(c.Ops, fmt.Sprintf("env do=%s typ=%s id=%s", Pick(r, []string{"addfin", "rmfin", "rmfin"}), Pick(r, []string{ctrlInType, ctrlOutType}), id))
+		case x < 80 && mapsOutputs:
+			c.Ops = append(c.Ops, "env do=failnext kind="+Pick(r, []string{"plain", "plain", "conflict"}))
 		case x < 82 && isCleanup:
 			c.Ops = append(c.Ops, fmt.Sprintf("env do=mkout typ=%s id=%s parent=%s", Pick(r, outTypes), Pick(r, []string{"o1", "o2", "o3"}), id))
 		case x < 85 && kind == "cleanup-combine":
@@ -613,6 +657,24 @@ func ctrlEnv(ctx context.Context, env *ctrlProxy, a Args) {
 		out.md.SetCreated(fromTick(0))
 		out.md.SetUpdated(fromTick(0))
 		_ = env.Create(ctx, out)
+	case "failnext": // the next transform fails once
+		if env.log.faults == nil {
+			return
+		}
+
+		if a["kind"] == "conflict" {
+			// a genuine state conflict error about another resource: creating something that exists
+			aux := NewTRes("n1", "Aux", "x")
+			_ = env.inner.Create(ctx, aux)
+
+			if err := env.inner.Create(ctx, NewTRes("n1", "Aux", "x")); err != nil {
+				env.log.faults.add(fmt.Errorf("extra output: %w", err))
+			}
+
+			return
+		}
+
+		env.log.faults.add(fmt.Errorf("transient transform failure"))
 	case "rmout": // the environment destroys a dependent output it owns
 		_ = env.Destroy(ctx, resource.NewMetadata("n1", a["typ"], id, resource.VersionUndefined))
 	}
@@ -643,7 +705,10 @@ func (e *ctrlEng) Trace(t *testing.T, sc Case) (Case, []string) {
 			panic(err)
 		}
 
-		if err := ctrlRegister(rt, h["ctl"]); err != nil {
+		faults := &ctrlFaults{}
+		log.faults = faults
+
+		if err := ctrlRegister(rt, h["ctl"], faults); err != nil {
 			panic(err)
 		}
 
